@@ -775,6 +775,19 @@ def oracle_prt(w, o):
     ec, calls = int(f["ec"]), int(f["calls"])
     sink = [] if f["sink"] == "." else [p_bytes(x) for x in f["sink"].split("/")]
     delivered = b"".join(sink)
+    first_f = script.index("f") + 1 if "f" in script else None
+    failed = first_f is not None and calls >= first_f          # write(2) did fail during the run, at the end of it or at close
+    if ec == -1:
+        # run error: hawk_rtx_loop failed.  legitimate only when the writer failed (the flush made when the run returns);
+        # every print may have been executed, and any of them may have been the one that failed before
+        if not failed:
+            return "the run failed (hawk_rtx_loop returned NULL) although write(2) never failed"
+        if not any(b"".join(t + b"\n" for t in texts[:k]).startswith(delivered) or
+                   (k > 0 and delivered.startswith(b"".join(t + b"\n" for t in texts[:k - 1])) and
+                    (texts[k - 1] + b"\n").startswith(delivered[len(b"".join(t + b"\n" for t in texts[:k - 1])):].rstrip(b"\n")))
+                   for k in range(0, len(texts) + 1)):
+            return "after a failed run what reached descriptor 1 (%d bytes) is not a prefix of the text printed" % len(delivered)
+        return None
     if ec == 0:
         m = len(texts)
     elif 101 <= ec <= 100 + len(texts):
@@ -784,6 +797,8 @@ def oracle_prt(w, o):
     exp = b"".join(t + b"\n" for t in texts[:m])
     if "f" not in script and "0" not in script and ec != 0:
         return "print reported a failure (exit %d) although write(2) never failed nor returned 0" % ec
+    if failed and ec == 0 and "0" not in script:
+        return "write(2) failed (call %d) but every print and the run reported success: lost data reported as success" % first_f
     okpre = exp.startswith(delivered)
     if not okpre and ec != 0:
         # the failing print: a prefix of its value may have been staged before the failure, and (HAWK_TOLERANT) ORS is written after it
